@@ -271,3 +271,108 @@ package keeper
 //@   ensures #c08-close-not-liquidated: err == nil ==> !b0.IsLiquidated
 //@   ensures [C12] #c12-owner: err == nil ==> old(k.GetBorrow(ctx, borrowID).1 && k.GetLend(ctx, k.GetBorrow(ctx, borrowID).0.LendingID).1 && borrowerAddr == k.GetLend(ctx, k.GetBorrow(ctx, borrowID).0.LendingID).0.Owner)
 //@   fails_if [C14] #c14-breaker: k.GetBorrow(ctx, borrowID).1 && k.GetLend(ctx, k.GetBorrow(ctx, borrowID).0.LendingID).1 && breakerOn(k, ctx, k.GetLend(ctx, k.GetBorrow(ctx, borrowID).0.LendingID).0.AppID)
+
+// ---- lend / borrow accrual kernels (C18): exact decimal arithmetic, proved equal to their spec functions ----
+// elapsed seconds: zero for a position that has never been touched (zero time stamp)
+//@ pred lendElapsed(now, last): ite(div(last, pow10(9)) == 0, 0, div(now, pow10(9)) - div(last, pow10(9)))
+//@ pred years(secs): (secs * ONE) / 31557600
+// index growth: amount * ((index * (1 + rate*years)) / index) - amount, with the SDK's rounding at every step
+//@ pred indexAccrual(amt, rate, idx, secs): decMul(amt, decQuo(decMul(idx, ONE + decMul(rate, years(secs))), idx)) - amt
+
+// Stable-rate borrow interest: amount x rate x years, nothing for a negative interval (rejected).
+//@ func (k Keeper) CalculateStableInterest
+//@   property C18
+//@   let secs = lendElapsed(blocktime(), borrow.LastInteractionTime)
+//@   let amt = decstr(amount)
+//@   requires #sane-times: blocktime() >= 0 && blocktime() <= pow2(62) && borrow.LastInteractionTime >= 0 && borrow.LastInteractionTime <= pow2(62)
+//@   ensures #c18-negative-time-rejected: secs < 0 ==> result1 != nil
+//@   ensures #c18-stable-spec: secs >= 0 ==> result1 == nil && result0 == decMul(decMul(amt, borrow.StableBorrowRate), years(secs))
+
+// Lend reward: index growth of the lent amount; the new index is index x (1 + rate x years).
+//@ func (k Keeper) CalculateLendReward
+//@   property C18
+//@   let secs = lendElapsed(blocktime(), lend.LastInteractionTime)
+//@   let amt = decstr(amount)
+//@   requires #sane-times: blocktime() >= 0 && blocktime() <= pow2(62) && lend.LastInteractionTime >= 0 && lend.LastInteractionTime <= pow2(62)
+//@   requires #index: lend.GlobalIndex > 0
+//@   ensures #c18-negative-time-rejected: secs < 0 ==> result2 != nil
+//@   ensures #c18-lend-spec: secs >= 0 ==> result2 == nil && result0 == indexAccrual(amt, rate, lend.GlobalIndex, secs) && result1 == decMul(lend.GlobalIndex, ONE + decMul(rate, years(secs)))
+
+// Variable-rate borrow interest and the reserve's cut: both are index growths of the borrowed amount.
+//@ func (k Keeper) CalculateBorrowInterest
+//@   property C18
+//@   let secs = lendElapsed(blocktime(), borrow.LastInteractionTime)
+//@   let amt = decstr(amount)
+//@   requires #sane-times: blocktime() >= 0 && blocktime() <= pow2(62) && borrow.LastInteractionTime >= 0 && borrow.LastInteractionTime <= pow2(62)
+//@   requires #index: borrow.GlobalIndex > 0 && borrow.ReserveGlobalIndex > 0
+//@   ensures #c18-negative-time-rejected: secs < 0 ==> result4 != nil
+//@   ensures #c18-borrow-spec: secs >= 0 ==> result4 == nil && result0 == indexAccrual(amt, rate, borrow.GlobalIndex, secs) && result1 == decMul(borrow.GlobalIndex, ONE + decMul(rate, years(secs)))
+//@   ensures #c18-reserve-spec: secs >= 0 ==> result4 == nil && result2 == indexAccrual(amt, reserveRate, borrow.ReserveGlobalIndex, secs) && result3 == decMul(borrow.ReserveGlobalIndex, ONE + decMul(reserveRate, years(secs)))
+
+// Laws of the two accrual spec functions (C18), for all amounts, rates, indexes and times in the stated ranges.
+//@ lemma StableAccrualLaws(amt, rate, s1, s2)
+//@   property C18
+//@   requires 0 <= amt && amt <= pow2(63) * ONE && 0 <= rate && rate <= 100 * ONE && 0 <= s1 && s1 <= s2 && s2 <= pow2(40)
+//@   ensures #c18-zero-time: decMul(decMul(amt, rate), years(0)) == 0
+//@   ensures #c18-nonneg: decMul(decMul(amt, rate), years(s1)) >= 0
+//@   ensures #y: years(s1) <= years(s2)
+//@   ensures #c18-mono-time: decMul(decMul(amt, rate), years(s1)) <= decMul(decMul(amt, rate), years(s2)) by #y
+
+//@ lemma StableAccrualMonotoneInPrincipalAndRate(a1, a2, r1, r2, s)
+//@   property C18
+//@   requires 0 <= a1 && a1 <= a2 && a2 <= pow2(63) * ONE && 0 <= r1 && r1 <= r2 && r2 <= 100 * ONE && 0 <= s && s <= pow2(40)
+//@   ensures #p: decMul(a1, r1) <= decMul(a2, r2)
+//@   ensures #c18-mono-principal-rate: decMul(decMul(a1, r1), years(s)) <= decMul(decMul(a2, r2), years(s)) by #p
+
+//@ lemma StableAccrualTwoIntervals(amt, rate, s1, s2)
+//@   property C18
+//@   requires 0 <= amt && amt <= pow2(63) * ONE && 0 <= rate && rate <= 100 * ONE && 0 <= s1 && 0 <= s2 && s1 + s2 <= pow2(40)
+//@   ensures #y: years(s1) + years(s2) <= years(s1 + s2)
+//@   ensures #c18-two-intervals: decMul(decMul(amt, rate), years(s1)) + decMul(decMul(amt, rate), years(s2)) <= decMul(decMul(amt, rate), years(s1 + s2)) + 1 by #y
+
+//@ lemma IndexAccrualZeroAndNonneg(amt, rate, idx, s)
+//@   property C18
+//@   requires 0 <= amt && amt <= pow2(63) * ONE && 0 <= rate && rate <= 100 * ONE && 0 < idx && idx <= pow2(100) && 0 <= s && s <= pow2(40)
+//@   ensures #c18-zero-time: indexAccrual(amt, rate, idx, 0) == 0
+//@   ensures #e: decMul(rate, years(s)) >= 0
+//@   ensures #m: decMul(idx, ONE + decMul(rate, years(s))) >= idx by #e
+//@   ensures #q: decQuo(decMul(idx, ONE + decMul(rate, years(s))), idx) >= ONE by #m
+//@   ensures #c18-nonneg: indexAccrual(amt, rate, idx, s) >= 0 by #q
+
+//@ lemma IndexAccrualMonotoneInTime(amt, rate, idx, s1, s2)
+//@   property C18
+//@   requires 0 <= amt && amt <= pow2(63) * ONE && 0 <= rate && rate <= 100 * ONE && 0 < idx && idx <= pow2(100) && 0 <= s1 && s1 <= s2 && s2 <= pow2(40)
+//@   ensures #y: years(s1) <= years(s2)
+//@   ensures slow #e: decMul(rate, years(s1)) <= decMul(rate, years(s2)) by #y
+//@   ensures slow #m: decMul(idx, ONE + decMul(rate, years(s1))) <= decMul(idx, ONE + decMul(rate, years(s2))) by #e
+//@   ensures slow #q: decQuo(decMul(idx, ONE + decMul(rate, years(s1))), idx) <= decQuo(decMul(idx, ONE + decMul(rate, years(s2))), idx) by #m
+//@   ensures slow #c18-mono-time: indexAccrual(amt, rate, idx, s1) <= indexAccrual(amt, rate, idx, s2) by #q
+
+//@ pred growth(rate, idx, secs): decQuo(decMul(idx, ONE + decMul(rate, years(secs))), idx)
+
+//@ lemma IndexAccrualMonotoneInRate(amt, r1, r2, idx, s)
+//@   property C18
+//@   requires 0 <= amt && amt <= pow2(63) * ONE && 0 <= r1 && r1 <= r2 && r2 <= 100 * ONE && 0 < idx && idx <= pow2(100) && 0 <= s && s <= pow2(40)
+//@   ensures slow #e: decMul(r1, years(s)) <= decMul(r2, years(s))
+//@   ensures slow #m: decMul(idx, ONE + decMul(r1, years(s))) <= decMul(idx, ONE + decMul(r2, years(s))) by #e
+//@   ensures slow #q: growth(r1, idx, s) <= growth(r2, idx, s) by #m
+//@   ensures slow #c18-mono-rate: indexAccrual(amt, r1, idx, s) <= indexAccrual(amt, r2, idx, s) by #q
+
+//@ lemma IndexAccrualMonotoneInPrincipal(a1, a2, f)
+//@   property C18
+//@   requires 0 <= a1 && a1 <= a2 && a2 <= pow2(63) * ONE && ONE <= f && f <= pow2(100)
+//@   ensures slow #c18-mono-principal: decMul(a1, f) - a1 <= decMul(a2, f) - a2
+
+// Two consecutive accruals on the same principal and index never yield more than one accrual over the combined interval,
+// beyond the rounding of the five fixed-point operations (at most 6 units of the 18th decimal per whole unit of principal, plus 8).
+//@ lemma IndexAccrualTwoIntervals(amt, rate, idx, s1, s2)
+//@   property C18
+//@   requires 0 <= amt && amt <= pow2(63) * ONE && 0 <= rate && rate <= 100 * ONE && ONE <= idx && idx <= pow2(100) && 0 <= s1 && 0 <= s2 && s1 + s2 <= pow2(40)
+//@   ensures #y: years(s1) + years(s2) <= years(s1 + s2)
+//@   ensures #e: decMul(rate, years(s1)) + decMul(rate, years(s2)) <= decMul(rate, years(s1 + s2)) + 1 by #y
+//@   ensures #m: decMul(idx, ONE + decMul(rate, years(s1))) + decMul(idx, ONE + decMul(rate, years(s2))) <= decMul(idx, ONE + decMul(rate, years(s1 + s2))) + idx + idx / ONE + 3 by #e
+//@   ensures #qa: 2 * idx * growth(rate, idx, s1) <= 2 * ONE * decMul(idx, ONE + decMul(rate, years(s1))) + idx
+//@   ensures #qb: 2 * idx * growth(rate, idx, s2) <= 2 * ONE * decMul(idx, ONE + decMul(rate, years(s2))) + idx
+//@   ensures #qc: 2 * idx * growth(rate, idx, s1 + s2) >= 2 * ONE * decMul(idx, ONE + decMul(rate, years(s1 + s2))) - idx - 2 * (idx / ONE) - 2
+//@   ensures slow #q: growth(rate, idx, s1) + growth(rate, idx, s2) <= growth(rate, idx, s1 + s2) + ONE + 6 by #m, #qa, #qb, #qc
+//@   ensures slow #c18-two-intervals: indexAccrual(amt, rate, idx, s1) + indexAccrual(amt, rate, idx, s2) <= indexAccrual(amt, rate, idx, s1 + s2) + 6 * (amt / ONE) + 8 by #q
